@@ -161,8 +161,10 @@ def classic_2mul(a: fp.Real, b: fp.Real):
     - the rounding mode is round-nearest.
     """
 
-    with fp.INTEGER:
-        p = core.max_p()
+    # the precision is that of the caller's context (`INTEGER` has none);
+    # halve it exactly: under `INTEGER`, `p / 2` would truncate before `ceil`
+    p = core.max_p()
+    with fp.REAL:
         s = fp.ceil(p / 2)
 
     ah, al = veltkamp_split(a, s)
